@@ -103,6 +103,7 @@ type glFn struct {
 	alias     map[types.Object]glAlias // pointer local -> where its object lives (a map element)
 	ptrLocal  map[types.Object]string    // pointer locals with a nil flag: name of the flag
 	elemAlias map[types.Object]*ast.Ident // pointer local obtained by e.Value.(*T): the element variable e
+	idxSubst  map[[2]types.Object]string // inside `for i := 0; i < len(X); i++`: X[i] is the element variable of the canonical range form
 	errAs     map[types.Object]string // interface view of an error value (from err.(I)): the error expression it stands for
 	fnEff     bool // calls on opaque (interface) parameters are recorded in a function-level effect log, returned last
 	funcLits  map[types.Object]*ast.FuncLit // locals bound to a function literal (only ever handed to sync.Once.Do)
@@ -485,6 +486,11 @@ func (f *glFn) expr(e ast.Expr) string {
 			m := bt.(*types.Map)
 			return "((GoMap.get? " + f.expr(x.X) + " " + f.expr(x.Index) + ").getD " + f.g.zero(m.Elem(), f.t.strBytes) + ")"
 		case *types.Slice, *types.Array, *types.Basic:
+			if xo, io := f.objOf(x.X), f.objOf(x.Index); xo != nil && io != nil {
+				if v, ok := f.idxSubst[[2]types.Object{xo, io}]; ok {
+					return v
+				}
+			}
 			return "(← GoRT.idx " + f.expr(x.X) + " " + f.expr(x.Index) + ")"
 		}
 	case *ast.SliceExpr:
@@ -1805,6 +1811,44 @@ func (f *glFn) stmt(s ast.Stmt, ind int) {
 		if assigned {
 			f.fail(s, "loop variable assigned in the body")
 			return
+		}
+		// canonical form: `for i := 0; i < len(X); i++ { ... X[i] ... }` over a slice/array/byte string X that the body
+		// does not change is the range loop `for i, v := range X` with v for X[i] (an index in range never panics)
+		if lc, ok := cond.Y.(*ast.CallExpr); ok && len(lc.Args) == 1 {
+			if lf, ok := lc.Fun.(*ast.Ident); ok && lf.Name == "len" {
+				if xi, ok := lc.Args[0].(*ast.Ident); ok {
+					if bl, ok := init.Rhs[0].(*ast.BasicLit); ok && bl.Value == "0" {
+						xo := f.objOf(xi)
+						_, isMap := f.typeOf(xi).Underlying().(*types.Map)
+						isStr := false
+						if b, ok := f.typeOf(xi).Underlying().(*types.Basic); ok && b.Info()&types.IsString != 0 {
+							isStr = true
+						}
+						changed := false
+						ast.Inspect(x.Body, func(n ast.Node) bool {
+							if a, ok := n.(*ast.AssignStmt); ok {
+								for _, l := range a.Lhs {
+									if ro, _ := f.rootObj(l); ro == xo {
+										changed = true
+									}
+								}
+							}
+							return true
+						})
+						if xo != nil && !isMap && !changed && (!isStr || f.t.strBytes) {
+							ev := f.idName(iv) + "_elem"
+							if f.idxSubst == nil {
+								f.idxSubst = map[[2]types.Object]string{}
+							}
+							f.idxSubst[[2]types.Object{xo, obj}] = ev
+							f.emit(ind, "for ("+f.idName(iv)+", "+ev+") in GoRT.enum "+f.expr(xi)+" do")
+							f.block(x.Body.List, ind+1)
+							delete(f.idxSubst, [2]types.Object{xo, obj})
+							return
+						}
+					}
+				}
+			}
 		}
 		f.emit(ind, "for "+f.idName(iv)+" in GoRT.rangeInt "+f.expr(init.Rhs[0])+" "+f.expr(cond.Y)+" do")
 		f.block(x.Body.List, ind+1)
